@@ -518,6 +518,7 @@ func (w *Worker) runPath(fn *ssa.Function, it workItem, fuel int64, exp *Explore
 	i.fuel = fuel
 	i.softFuelAt = -1
 	i.mapOrderSym = false
+	i.softOpaque = false
 	i.mapOrderUsed = 0
 	i.depth = 0
 	i.panicSite = ""
@@ -545,6 +546,10 @@ func (w *Worker) runPath(fn *ssa.Function, it workItem, fuel int64, exp *Explore
 			switch a := r.(type) {
 			case abort:
 				res = PathResult{Kind: a.kind, Msg: a.msg}
+				if a.kind == "inconclusive" && i.softOpaque && strings.Contains(a.msg, "opaque string") {
+					// inside a symx.SoftOpaque scope: the path simply stops here (outcome: still running)
+					res = PathResult{Kind: "done", Msg: "stopped at an opaque (formatted symbolic number) string"}
+				}
 				if a.kind == "fuel" && i.fuelIsViolation {
 					site := strings.TrimPrefix(a.msg, "instruction budget exhausted in ")
 					func() {
